@@ -6,7 +6,7 @@ log=/tmp/seeded/$id$sfx/confirm.log
 cd $wt || exit 3
 export CARGO_NET_OFFLINE=true
 # the stash is shared between worktrees: never use it; patch.diff is the source of truth
-git checkout -q -- src && git apply $src/patch.diff || { echo "patch.diff does not apply to HEAD"; exit 3; }
+git checkout -q -- src && git checkout -q --detach $(git -C /repo rev-parse HEAD) && git apply $src/patch.diff || { echo "patch.diff does not apply to HEAD"; exit 3; }
 cp $src/seeded_demo.rs tests/seeded_demo.rs
 {
 echo "== existing suite with the change"
